@@ -376,6 +376,7 @@ func TestC10(t *testing.T) {
 			return
 		}
 		base.Config.Planner = ""
+		base.Config.MaxBatch = rapid.SampledFrom([]int{0, 0, 1, 2, 3}).Draw(t, "maxbatch") // 0 = default 3000; small sizes reach the chunked path
 		fs := caseFeatures(base)
 		if g := closedGateIn(fs); g != "" {
 			rec.Exclude(g)
@@ -434,7 +435,7 @@ func TestC10(t *testing.T) {
 			rec.Class(class, 1)
 			return
 		}
-		rec.Case(ev.Hash(c), nt, class, fmt.Sprintf("services=%d", len(services)))
+		rec.Case(ev.Hash(c), nt, class, fmt.Sprintf("services=%d", len(services)), fmt.Sprintf("maxbatch=%d", c.Config.MaxBatch))
 		rec.Sample(nt, func() interface{} {
 			return map[string]interface{}{"edit": c.Edit, "query": c.Op.Query, "operationName": c.Op.OperationName, "error_payload": c.ErrorPayload, "fault": c.Fault}
 		})
